@@ -505,24 +505,26 @@ def probe_reset(name: str) -> dict:
 
 
 def probe_reregister(name: str) -> dict:
+    """After ANY single setter call (whatever was set before it) the derived coefficient-name table must
+    equal the one of a generator constructed with the same flags."""
     ri = rinfo(name)
     r = ri.variants[0]
-    ok, checked = True, 0
+    bad, checked = [], 0
     flags = ["insert_parent_helicities", "insert_child_helicities"] + (["insert_ls_combinations"] if ri.canonical else [])
-    for combo in itertools.product([False, True], repeat=len(flags)):
-        b = ampform.get_builder(r)
-        for f, val in zip(flags, combo):
-            setattr(b.naming, f, val)
-        ref = type(b.naming)(r, **dict(zip(flags, combo)))
-        checked += 1
-        if dict(b.naming.parity_partner_coefficient_mapping) != dict(ref.parity_partner_coefficient_mapping):
-            ok = False
-        # and back again
-        for f in flags:
-            setattr(b.naming, f, getattr(type(b.naming)(r), f))
-        if dict(b.naming.parity_partner_coefficient_mapping) != dict(type(b.naming)(r).parity_partner_coefficient_mapping):
-            ok = False
-    return {"reregisters": ok, "checked": checked}
+    for last in flags:
+        others = [f for f in flags if f != last]
+        for combo in itertools.product([False, True], repeat=len(others)):
+            for val in (False, True):
+                b = ampform.get_builder(r)
+                for f, v in zip(others, combo):
+                    setattr(b.naming, f, v)
+                setattr(b.naming, last, val)  # the setter under test is the LAST one called
+                now = {**dict(zip(others, combo)), last: val}
+                ref = type(b.naming)(r, **now)
+                checked += 1
+                if dict(b.naming.parity_partner_coefficient_mapping) != dict(ref.parity_partner_coefficient_mapping):
+                    bad.append(last)
+    return {"reregisters": not bad, "checked": checked, "offending_setters": sorted(set(bad))}
 
 
 def extract_skeleton(out_v: str) -> dict:
